@@ -87,3 +87,18 @@ pub fn run(sc: &Value) -> Value {
         other => json!({"outcome": format!("unsupported-type:{}", other)}),
     }
 }
+
+/// C17: the crate's own entry points on one document, optionally followed by non-whitespace bytes
+pub fn run_entry_points(sc: &Value) -> Value {
+    use in_toto::interchange::{DataInterchange, Json};
+    use in_toto::models::Metablock;
+    let doc = build(&sc["doc"]);
+    let mut text = doc.to_string();
+    let trailing = sc["trailing"] == true;
+    if trailing { text.push_str(" {\"x\":1}"); }
+    let mut outs: Vec<&str> = Vec::new();
+    outs.push(if Json::from_reader::<_, Metablock>(text.as_bytes()).is_ok() { "ok" } else { "err" });
+    outs.push(if Json::from_slice::<Metablock>(text.as_bytes()).is_ok() { "ok" } else { "err" });
+    if !trailing { outs.push(if Json::deserialize::<Metablock>(&doc).is_ok() { "ok" } else { "err" }); }
+    json!({"outcome": outs.join("/")})
+}
